@@ -529,8 +529,14 @@ XSIEXT_K = [('1', 1), ('01', 1), ('2', 2), ('+2', 2), ('3', 3), ('7', 7)]
 
 
 def gen_xsiext_doc(rng):
+    # in half of the documents the first use of xsi:type="Ext" is a box outside any <sec> (after a closed <sec>)
+    late = rng.random() < 0.5
+    seen_free = [False]
+
     def box(in_sec):
-        ext = rng.random() < 0.7
+        ext = rng.random() < 0.7 and not (late and in_sec and not seen_free[0])
+        if ext and not in_sec:
+            seen_free[0] = True
         return {'ext': ext, 'items': [rng.randrange(len(XSIEXT_K)) for _ in range(rng.randint(0, 2))],
                 'extras': [rng.randrange(len(XSIEXT_K)) for _ in range(rng.randint(0, 3))] if ext else []}
     parts = []
